@@ -15,11 +15,12 @@ import (
 
 // C09 — string functions compute the XPath 1.0 result on their arguments.
 
-const ruleC09 = "rapid: document with ASCII text values x context x tree of depth <= 4 over concat (2-4 args), contains, starts-with, ends-with, substring-before/after, substring (2 and 3 args; start/length -3..9 in steps of 0.5), string-length, normalize-space (0/1 arg), translate, lower-case, string-join(flat, sep), string; string arguments from an ASCII pool incl. '', runs of blanks/tab/newline, repeated letters, digits, '-'; node-set arguments are flat paths (empty, one, many nodes) taken as the string-value of their first node. enum: substring(s, start[, length]) for every s of length 0..6 and every start, length in -3..9 step 0.5 (exhaustive). Oracle: Evaluate = reference evaluator where substring is literally 'positions p with round(start) <= p < round(start)+round(length)', round = floor(x+0.5); no panic. Non-trivial: the result differs from every literal argument, or an argument is an empty node-set or the empty string; distinct by (document, context, expression)."
+const ruleC09 = "rapid: document with ASCII text values x context x tree of depth <= 4 over concat (2-4 args), contains, starts-with, ends-with, substring-before/after, substring (2 and 3 args; start/length -3..9 in steps of 0.5), string-length, normalize-space (0/1 arg), translate, lower-case, string-join(flat, sep), string; string arguments from an ASCII pool incl. '', runs of blanks/tab/newline, repeated letters, digits, '-'; node-set arguments are flat paths (empty, one, many nodes) taken as the string-value of their first node. enum: contains/starts-with/ends-with/substring-before/substring-after/concat over all pairs of strings over {a,b} up to length 3, translate over all (s, from) of that kind x all 'to' over {x,y} up to length 2, normalize-space and string-length over all strings over {a, blank, tab} up to length 5, lower-case over {a,B,1} up to length 3 (all exhaustive); substring(s, start[, length]) for every s of length 0..6 and every start, length in -3..9 step 0.5 (exhaustive). Oracle: Evaluate = reference evaluator where substring is literally 'positions p with round(start) <= p < round(start)+round(length)', round = floor(x+0.5); no panic. Non-trivial: the result differs from every literal argument, or an argument is an empty node-set or the empty string; distinct by (document, context, expression)."
 
 var (
 	uC09      = harness.NewUnit("C09", "rapid-string-functions", ruleC09)
 	uC09Sweep = harness.NewUnit("C09", "enum-substring-sweep", ruleC09)
+	uC09Small = harness.NewUnit("C09", "enum-small-domains", ruleC09)
 )
 
 func init() {
@@ -136,4 +137,65 @@ func TestC09SubstringSweep(t *testing.T) {
 	}
 	uC09Sweep.SetExhaustive(total)
 	uC09Sweep.Done(total)
+}
+
+// TestC09SmallDomains enumerates the two- and three-argument string functions
+// completely over small alphabets (exhaustive for the stated finite spaces).
+func TestC09SmallDomains(t *testing.T) {
+	doc := xdoc.MustParse("<a/>")
+	shard, shards := harness.Shard()
+	var total int64
+	idx := 0
+	words := func(alpha string, maxLen int) []string {
+		out := []string{""}
+		prev := []string{""}
+		for n := 1; n <= maxLen; n++ {
+			var next []string
+			for _, p := range prev {
+				for _, c := range alpha {
+					next = append(next, p+string(c))
+				}
+			}
+			out = append(out, next...)
+			prev = next
+		}
+		return out
+	}
+	run := func(e xast.Expr, label string) {
+		idx++
+		if idx%shards != shard {
+			return
+		}
+		l := &harness.Live{Property: "C09", Check: "C09/strings", Doc: doc, Ctx: doc.Root, AST: e, Expr: xast.Render(e)}
+		want, f := scalarOracle(l)
+		if f != nil {
+			harness.Report(t, uC09Small, l, f)
+		}
+		total++
+		uC09Small.Case(harness.Hash64(l.Expr), true, []string{label}, func() interface{} { return l.Sample("value", want.String()) })
+	}
+	ab := words("ab", 3)
+	for _, s := range ab {
+		for _, u := range ab {
+			for _, fn := range []string{"contains", "starts-with", "ends-with", "substring-before", "substring-after", "concat"} {
+				run(&xast.Call{Name: fn, Args: []xast.Expr{&xast.Str{S: s}, &xast.Str{S: u}}}, "fn:"+fn)
+			}
+		}
+	}
+	for _, s := range ab {
+		for _, from := range ab {
+			for _, to := range words("xy", 2) {
+				run(&xast.Call{Name: "translate", Args: []xast.Expr{&xast.Str{S: s}, &xast.Str{S: from}, &xast.Str{S: to}}}, "fn:translate")
+			}
+		}
+	}
+	for _, s := range words("a \t", 5) {
+		run(&xast.Call{Name: "normalize-space", Args: []xast.Expr{&xast.Str{S: s}}}, "fn:normalize-space")
+		run(&xast.Call{Name: "string-length", Args: []xast.Expr{&xast.Str{S: s}}}, "fn:string-length")
+	}
+	for _, s := range words("aB1", 3) {
+		run(&xast.Call{Name: "lower-case", Args: []xast.Expr{&xast.Str{S: s}}}, "fn:lower-case")
+	}
+	uC09Small.SetExhaustive(total)
+	uC09Small.Done(total)
 }
